@@ -225,76 +225,21 @@ Proof.
   - right. apply IH. assumption.
 Qed.
 
-(* ---------- needle maps: one operation touches one key ---------- *)
-Lemma nm_get_set_other : forall m k v k', k <> k' -> nm_get (nm_set m k v) k' = nm_get m k'.
-Proof. intros. unfold nm_set. cbn [nm_get]. destruct (k =? k') eqn:E; [lia|reflexivity]. Qed.
-
-Lemma nm_get_set_same : forall m k v, nm_get (nm_set m k v) k = Some v.
-Proof. intros. unfold nm_set. cbn [nm_get]. rewrite N.eqb_refl. reflexivity. Qed.
-
-Lemma nm_get_delete_other : forall m k k', k <> k' -> nm_get (nm_delete m k) k' = nm_get m k'.
-Proof.
-  intros m k k' H. unfold nm_delete. destruct (nm_get m k) as [v|]; [|reflexivity].
-  destruct (size_valid (nv_size v)); [|reflexivity]. cbn [nm_get]. destruct (k =? k') eqn:E; [lia|reflexivity].
-Qed.
-
-Lemma nm_get_delete_same : forall m k, nm_get (nm_delete m k) k =
-  match nm_get m k with
-  | Some v => if size_valid (nv_size v) then Some {| nv_off := nv_off v; nv_size := (- nv_size v)%Z |} else Some v
-  | None => None
-  end.
-Proof.
-  intros m k. unfold nm_delete. destruct (nm_get m k) as [v|] eqn:E; [|assumption].
-  destruct (size_valid (nv_size v)); [|assumption]. cbn [nm_get]. rewrite N.eqb_refl. reflexivity.
-Qed.
-
-(* the replayed in-memory map never holds a binding of size 0 *)
-Lemma load_compact_nonzero : forall es k lv, nm_get (load_compact es) k = Some lv -> nv_size lv <> 0%Z.
-Proof.
-  intros es. induction es as [|e es IH] using rev_ind; intros k lv H; [discriminate|].
-  rewrite load_compact_snoc in H. unfold load_compact_step in H.
-  destruct (negb (e_off e =? 0) && size_valid (e_size e)) eqn:Ec.
-  - destruct (N.eq_dec (e_key e) k) as [Ek|Ek].
-    + subst k. rewrite nm_get_set_same in H. inversion H; subst lv. cbn [nv_size].
-      apply andb_true_iff in Ec. destruct Ec as [_ Ev]. apply size_valid_pos in Ev. lia.
-    + rewrite nm_get_set_other in H by assumption. eapply IH; eauto.
-  - destruct (N.eq_dec (e_key e) k) as [Ek|Ek].
-    + subst k. rewrite nm_get_delete_same in H. destruct (nm_get (load_compact es) (e_key e)) as [v|] eqn:Eg; [|discriminate].
-      destruct (size_valid (nv_size v)) eqn:Ev.
-      * inversion H; subst lv. cbn [nv_size]. apply size_valid_pos in Ev. lia.
-      * inversion H; subst lv. eapply IH; eauto.
-    + rewrite nm_get_delete_other in H by assumption. eapply IH; eauto.
-Qed.
-
 (* ---------- well-formed histories ---------- *)
 Section WithCrc.
   Variable crc : list N -> N.
 
-  (* what a caller passes: a representable needle (C02: enc_okb, ranges_ok) with
-     Checksum = NewCRC(Data); 64/32-bit id, cookie and clock for a delete.  The payload may be
-     EMPTY *)
-  Definition wf_any (o : op) : Prop :=
-    match o with
-    | Write n => rec_ok n /\ checksum n = crc (data n)
-    | Delete k c ts => k < 2 ^ 64 /\ c < 2 ^ 32 /\ ts < 2 ^ 64
-    end.
-
-  (* ... with a NON-EMPTY payload *)
+  (* what a caller passes: a representable needle with a payload and Checksum = NewCRC(Data) (the
+     empty payload is finding 0 of C01/C02); 64/32-bit id, cookie and clock for a delete *)
   Definition wf_op (o : op) : Prop :=
     match o with
     | Write n => rec_ok n /\ data n <> [] /\ checksum n = crc (data n)
     | Delete k c ts => k < 2 ^ 64 /\ c < 2 ^ 32 /\ ts < 2 ^ 64
     end.
 
-  Lemma wf_op_any : forall o, wf_op o -> wf_any o.
-  Proof. intros [n|k c ts] H; [destruct H as [H1 [_ H2]]; split; assumption|exact H]. Qed.
-
-  Lemma wf_ops_any : forall h, Forall wf_op h -> Forall wf_any h.
-  Proof. intros h H. eapply Forall_impl; [|exact H]. apply wf_op_any. Qed.
-
   Definition arec_ok (r : arec) : Prop :=
     rec_ok (a_n r) /\
-    (if a_tomb r then data (a_n r) = [] else checksum (a_n r) = crc (data (a_n r))).
+    (if a_tomb r then data (a_n r) = [] else data (a_n r) <> [] /\ checksum (a_n r) = crc (data (a_n r))).
 
   Lemma tombstone_ok : forall k c ts, k < 2 ^ 64 -> c < 2 ^ 32 -> ts < 2 ^ 64 ->
     arec_ok {| a_n := tombstone k c ts; a_tomb := true |}.
@@ -317,48 +262,20 @@ Section WithCrc.
     pose proof (actual_size_aligned (body_size (a_n r)) Ver). lia.
   Qed.
 
-  Lemma body_size_pos : forall n, data n <> [] -> 0 < body_size n.
-  Proof. intros n H. pose proof (data_size_lt_body n H). lia. Qed.
-
-  Lemma body_pos_data : forall n, 0 < body_size n -> data n <> [].
-  Proof. intros n H E. destruct (body_empty n E) as [Hb _]. lia. Qed.
-
   (* ---------- the invariant of the running volume ---------- *)
-  (* a binding of the needle map points at a record of its key that carries a payload slot: the
-     size is the record's Size, or its negation once deleted *)
-  Definition bind_ok (l : list (N * arec)) (k : N) (nv : nval) : Prop :=
-    exists r, In (nv_off nv * 8, r) l /\ nv_off nv <> 0 /\ id (a_n r) = k /\ a_tomb r = false /\
-      (nv_size nv = Z.of_N (body_size (a_n r)) \/
-       (nv_size nv = (- Z.of_N (body_size (a_n r)))%Z /\ 0 < body_size (a_n r))).
-
-  (* the needle map of the running volume [pm] against the map a restart replays from the index
-     [lm], for one key: the same binding, except that an empty blob (size 0) comes back absent
-     or deleted -- the finding c03-empty-blob-gone-after-restart *)
-  Definition map_rel (pm lm : nmap) (k : N) : Prop :=
-    match nm_get pm k with
-    | None => nm_get lm k = None
-    | Some pv =>
-        if (nv_size pv =? 0)%Z
-        then match nm_get lm k with None => True | Some lv => (nv_size lv < 0)%Z end
-        else nm_get lm k = Some pv
-    end.
-
   Record Inv (st : pstate) : Prop := {
     inv_dat : p_dat st = dat_of (p_recs st);
     inv_lay : lay 8 (p_recs st);
     inv_idx : p_idx st = idx_of (p_recs st);
     inv_ok : recs_ok (p_recs st);
-    inv_bind : forall k nv, nm_get (p_map st) k = Some nv -> bind_ok (p_recs st) k nv;
-    inv_cmp : forall k, map_rel (p_map st) (load_compact (p_idx st)) k
+    inv_map : p_map st = load_compact (p_idx st)
   }.
 
   Lemma len_super_block : len super_block = 8.
   Proof. reflexivity. Qed.
 
   Lemma inv_init : Inv p_init.
-  Proof.
-    constructor; try reflexivity; try (intros k nv H; discriminate); constructor.
-  Qed.
+  Proof. constructor; try reflexivity; constructor. Qed.
 
   Lemma len_dat_of : forall l, len (dat_of l) = 8 + len (cat l).
   Proof. intros. unfold dat_of. rewrite len_app, len_super_block. reflexivity. Qed.
@@ -401,13 +318,32 @@ Section WithCrc.
       split; [assumption|]. lia.
   Qed.
 
+  Lemma map_from_idx : forall st, Inv st -> map_from (p_idx st) (p_map st).
+  Proof. intros st HI. rewrite (inv_map st HI). apply load_compact_from. Qed.
+
   (* a bound key of the running volume has a record whose offset lies inside the file *)
   Lemma bound_offset_lt : forall st k nv, Inv st -> nm_get (p_map st) k = Some nv ->
     nv_off nv * 8 < len (p_dat st) /\ 8 <= nv_off nv * 8.
   Proof.
-    intros st k nv HI Hg. destruct (inv_bind st HI k nv Hg) as [r [Hr _]].
-    destruct (rec_in_dat st _ r HI Hr) as [pre [post [Hd [Hp [Hal [Hge _]]]]]].
+    intros st k nv HI Hg. destruct (map_from_idx st HI k nv Hg) as [e [Hin [_ [Hoff _]]]].
+    destruct (entry_in_idx st e HI Hin) as [o [r [Hr He]]].
+    destruct (rec_in_dat st o r HI Hr) as [pre [post [Hd [Hp [Hal [Hge _]]]]]].
+    subst e. unfold entry_of in Hoff. cbn [e_off] in Hoff. rewrite Hoff.
     pose proof (len_encode_ge Ver (a_n r)). rewrite Hd, !len_app. lia.
+  Qed.
+
+  Lemma inv_append : forall st r m, Inv st -> arec_ok r ->
+    m = load_compact_step (p_map st) (entry_of (len (p_dat st)) r) ->
+    Inv (p_append st r m true).
+  Proof.
+    intros st r m HI Hr Hm. unfold p_append. constructor; cbn [p_recs p_dat p_idx p_map].
+    - rewrite (inv_dat st HI). unfold dat_of. rewrite cat_app, <- app_assoc. cbn [cat map concat snd].
+      rewrite app_nil_r. reflexivity.
+    - apply lay_app. split; [apply (inv_lay st HI)|]. cbn [lay]. split; [|exact I].
+      rewrite (inv_dat st HI), len_dat_of. reflexivity.
+    - rewrite (inv_idx st HI). unfold idx_of. rewrite map_app. reflexivity.
+    - apply Forall_app. split; [apply (inv_ok st HI)|]. constructor; [exact Hr|constructor].
+    - rewrite load_compact_snoc, <- (inv_map st HI). exact Hm.
   Qed.
 
   Lemma len_dat_ge8 : forall st, Inv st -> 8 <= len (p_dat st) /\ len (p_dat st) mod 8 = 0.
@@ -415,107 +351,45 @@ Section WithCrc.
     intros st HI. rewrite (inv_dat st HI), len_dat_of. pose proof (cat_aligned _ (inv_ok st HI)). lia.
   Qed.
 
-  Lemma bind_ok_app : forall l x k nv, bind_ok l k nv -> bind_ok (l ++ x) k nv.
-  Proof.
-    intros l x k nv [r [H1 H2]]. exists r. split; [apply in_or_app; left; assumption|assumption].
-  Qed.
+  Lemma body_size_pos : forall n, data n <> [] -> 0 < body_size n.
+  Proof. intros n H. pose proof (data_size_lt_body n H). lia. Qed.
 
-  (* the structural part of the invariant after an append; the two map clauses are left to the
-     caller *)
-  Lemma inv_append : forall st r m, Inv st -> arec_ok r ->
-    (forall k nv, nm_get m k = Some nv -> bind_ok (p_recs st ++ [(len (p_dat st), r)]) k nv) ->
-    (forall k, map_rel m (load_compact_step (load_compact (p_idx st)) (entry_of (len (p_dat st)) r)) k) ->
-    Inv (p_append st r m true).
+  Lemma inv_write : forall st n, Inv st -> wf_op (Write n) -> Inv (p_write st n).
   Proof.
-    intros st r m HI Hr Hb Hc. unfold p_append. constructor; cbn [p_recs p_dat p_idx p_map].
-    - rewrite (inv_dat st HI). unfold dat_of. rewrite cat_app, <- app_assoc. cbn [cat map concat snd].
-      rewrite app_nil_r. reflexivity.
-    - apply lay_app. split; [apply (inv_lay st HI)|]. cbn [lay]. split; [|exact I].
-      rewrite (inv_dat st HI), len_dat_of. reflexivity.
-    - rewrite (inv_idx st HI). unfold idx_of. rewrite map_app. reflexivity.
-    - apply Forall_app. split; [apply (inv_ok st HI)|]. constructor; [exact Hr|constructor].
-    - exact Hb.
-    - intros k. rewrite load_compact_snoc. apply Hc.
-  Qed.
-
-  Lemma newer_true : forall st k, Inv st ->
-    match nm_get (p_map st) k with Some nv => nv_off nv * 8 <? len (p_dat st) | None => true end = true.
-  Proof.
-    intros st k HI. destruct (nm_get (p_map st) k) as [nv|] eqn:Eg; [|reflexivity].
-    destruct (bound_offset_lt st _ nv HI Eg). lia.
-  Qed.
-
-  Lemma inv_write : forall st n, Inv st -> wf_any (Write n) -> Inv (p_write st n).
-  Proof.
-    intros st n HI [Hok Hck]. unfold p_write.
+    intros st n HI [Hok [Hne Hck]]. unfold p_write.
     destruct (p_unchanged st n); [assumption|].
     destruct (negb (p_cookie_ok st n)); [assumption|].
-    rewrite (newer_true st (id n) HI).
-    destruct (len_dat_ge8 st HI) as [H8 Hal].
-    set (off := len (p_dat st)) in *.
-    set (r := {| a_n := n; a_tomb := false |}).
-    set (nv' := {| nv_off := off / 8; nv_size := Z.of_N (body_size n) |}).
-    apply inv_append; [assumption|split; [exact Hok|exact Hck]| |].
-    - intros k nv Hg. destruct (N.eq_dec (id n) k) as [Ek|Ek].
-      + subst k. rewrite nm_get_set_same in Hg. inversion Hg; subst nv; clear Hg.
-        exists r. cbn [nv_off nv_size a_n a_tomb r nv'].
-        replace (off / 8 * 8) with off by lia.
-        split; [apply in_or_app; right; left; reflexivity|]. split; [lia|]. split; [reflexivity|].
-        split; [reflexivity|]. left. reflexivity.
-      + rewrite nm_get_set_other in Hg by assumption. apply bind_ok_app. apply (inv_bind st HI). assumption.
-    - intros k. pose proof (inv_cmp st HI k) as Hold. unfold map_rel in *. unfold nv'.
-      unfold load_compact_step, entry_of. cbn [e_off e_size e_key a_n a_tomb entry_size r].
-      fold off. replace (negb (off / 8 =? 0)) with true by lia. cbn [andb].
-      destruct (N.eq_dec (id n) k) as [Ek|Ek].
-      + subst k. rewrite nm_get_set_same. cbn [nv_size].
-        destruct (Z.of_N (body_size n) =? 0)%Z eqn:Ez.
-        * replace (size_valid (Z.of_N (body_size n))) with false by (unfold size_valid, TombstoneFileSize; lia).
-          rewrite nm_get_delete_same.
-          destruct (nm_get (load_compact (p_idx st)) (id n)) as [lv|] eqn:El; [|exact I].
-          pose proof (load_compact_nonzero _ _ _ El) as Hnz.
-          destruct (size_valid (nv_size lv)) eqn:Ev; cbn [nv_size].
-          { apply size_valid_pos in Ev. lia. }
-          { unfold size_valid, TombstoneFileSize in Ev. lia. }
-        * rewrite size_valid_of_N by lia. rewrite nm_get_set_same. reflexivity.
-      + rewrite nm_get_set_other by assumption.
-        destruct (size_valid (Z.of_N (body_size n)));
-          [rewrite nm_get_set_other by assumption|rewrite nm_get_delete_other by assumption]; exact Hold.
+    assert (Hnewer : match nm_get (p_map st) (id n) with Some nv => nv_off nv * 8 <? len (p_dat st) | None => true end = true).
+    { destruct (nm_get (p_map st) (id n)) as [nv|] eqn:Eg; [|reflexivity].
+      destruct (bound_offset_lt st _ nv HI Eg). lia. }
+    rewrite Hnewer. apply inv_append; [assumption| |].
+    - split; [exact Hok|]. cbn [a_tomb a_n]. split; assumption.
+    - unfold load_compact_step, entry_of. cbn [e_off e_size e_key a_n a_tomb entry_size].
+      destruct (len_dat_ge8 st HI) as [H8 _].
+      assert (E1 : negb (len (p_dat st) / 8 =? 0) = true) by lia.
+      rewrite E1, (size_valid_of_N _ (body_size_pos n Hne)). reflexivity.
   Qed.
 
-  Lemma inv_delete : forall st k c ts, Inv st -> wf_any (Delete k c ts) -> Inv (p_delete st k c ts).
+  Lemma inv_delete : forall st k c ts, Inv st -> wf_op (Delete k c ts) -> Inv (p_delete st k c ts).
   Proof.
     intros st k c ts HI [Hk [Hc Hts]]. unfold p_delete.
-    destruct (nm_get (p_map st) k) as [nv|] eqn:Eg; [|assumption].
-    destruct (size_valid (nv_size nv)) eqn:Ev; [|assumption].
-    pose proof (size_valid_pos _ Ev) as Hpos.
-    apply inv_append; [assumption|apply tombstone_ok; assumption| |].
-    - intros k' nv' Hg. destruct (N.eq_dec k k') as [Ek|Ek].
-      + subst k'. rewrite nm_get_delete_same, Eg, Ev in Hg. inversion Hg; subst nv'; clear Hg.
-        destruct (inv_bind st HI k nv Eg) as [r [Hin [Hnz [Hid [Ht Hsz]]]]].
-        exists r. cbn [nv_off nv_size]. split; [apply in_or_app; left; assumption|].
-        split; [assumption|]. split; [assumption|]. split; [assumption|].
-        right. destruct Hsz as [Hs|[Hs Hp]]; [|lia]. split; lia.
-      + rewrite nm_get_delete_other in Hg by assumption. apply bind_ok_app. apply (inv_bind st HI). assumption.
-    - intros k'. pose proof (inv_cmp st HI k') as Hold. unfold map_rel in *.
-      unfold load_compact_step, entry_of. cbn [e_off e_size e_key a_n a_tomb entry_size tombstone id].
-      replace (size_valid TombstoneFileSize) with false by reflexivity. rewrite andb_false_r.
-      destruct (N.eq_dec k k') as [Ek|Ek].
-      + subst k'. rewrite Eg in Hold. replace (nv_size nv =? 0)%Z with false in Hold by lia.
-        rewrite !nm_get_delete_same, Eg, Hold, Ev. cbn [nv_size].
-        replace (- nv_size nv =? 0)%Z with false by lia. reflexivity.
-      + rewrite !nm_get_delete_other by assumption. exact Hold.
+    destruct (nm_get (p_map st) k) as [nv|]; [|assumption].
+    destruct (size_valid (nv_size nv)); [|assumption].
+    apply inv_append; [assumption|apply tombstone_ok; assumption|].
+    unfold load_compact_step, entry_of. cbn [e_off e_size e_key a_n a_tomb entry_size tombstone id].
+    replace (size_valid TombstoneFileSize) with false by reflexivity. rewrite andb_false_r. reflexivity.
   Qed.
 
-  Lemma inv_step : forall st o, Inv st -> wf_any o -> Inv (p_step st o).
+  Lemma inv_step : forall st o, Inv st -> wf_op o -> Inv (p_step st o).
   Proof. intros st [n|k c ts] HI Hw; [apply inv_write|apply inv_delete]; assumption. Qed.
 
-  Lemma inv_fold : forall h st, Inv st -> Forall wf_any h -> Inv (fold_left p_step h st).
+  Lemma inv_fold : forall h st, Inv st -> Forall wf_op h -> Inv (fold_left p_step h st).
   Proof.
     induction h as [|o h IH]; intros st HI Hw; [assumption|].
     inversion Hw; subst. cbn [fold_left]. apply IH; [apply inv_step|]; assumption.
   Qed.
 
-  Lemma inv_run : forall h, Forall wf_any h -> Inv (p_run h).
+  Lemma inv_run : forall h, Forall wf_op h -> Inv (p_run h).
   Proof. intros. apply inv_fold; [apply inv_init|assumption]. Qed.
 
   (* ---------- the files only grow; records come from write operations ---------- *)
@@ -540,7 +414,7 @@ Section WithCrc.
       unfold p_append. eexists _, [_], [_]. cbn [p_dat p_idx p_recs]. repeat split; auto.
   Qed.
 
-  Lemma fold_extends : forall h st, Inv st -> Forall wf_any h ->
+  Lemma fold_extends : forall h st, Inv st -> Forall wf_op h ->
     exists X Y Z, p_dat (fold_left p_step h st) = p_dat st ++ X /\ p_idx (fold_left p_step h st) = p_idx st ++ Y /\
                   p_recs (fold_left p_step h st) = p_recs st ++ Z.
   Proof.
